@@ -27,12 +27,14 @@ class C12(Check):
                ('src/fast_ticc/graphical_lasso.py', '_retrieve_optimization_results'),
                ('src/fast_ticc/graphical_lasso.py', '_update_cluster_covariances')]
     obligations = ['mean_and_covariance_of_own_windows', 'other_fields_untouched', 'stats_after_repopulation',
-                   'task_gets_own_covariance_and_user_parameters', 'result_stored_in_own_cluster']
+                   'task_gets_own_covariance_and_user_parameters', 'result_stored_in_own_cluster',
+                   'every_round_fits_current_labels']
     obligation_text = {
         'mean_and_covariance_of_own_windows': 'for every k: stored mean/covariance == sample mean / sample covariance (divisor |C_k| if biased else |C_k|-1) over exactly {i: label_i = k}',
         'other_fields_untouched': 'membership, MRF, computed covariance of every cluster are the same objects as before; input state intact',
         'stats_after_repopulation': 'repopulate then update statistics: the statistics are those of the NEW membership',
         'task_gets_own_covariance_and_user_parameters': 'task k is submitted with (clusters[k].empirical_covariance, user sparsity weight, W, N) - the same objects, unchanged - and the documented keyword defaults',
+        'every_round_fits_current_labels': 'in the real main loop, round after round (labels changing between rounds, estimator flag symbolic): the covariance object handed to optimiser task k is the one the real statistics step of THAT round computed from the labels current at that point, and those statistics are the sample statistics of exactly the windows labelled k',
         'result_stored_in_own_cluster': 'for every completion order: cluster k ends with train_inverse = floor-filter(reinflate(theta_k))',
     }
     stubs = ['np.cov/np.mean are the shim\'s written-out NumPy definitions (validated against real NumPy by witness replay)',
@@ -67,6 +69,9 @@ class C12(Check):
             for lamform in ('scalar', 'matrix'):
                 cfgs.append(Config('tasks_K%d_N%d_W%d_%s' % (K, N, W, lamform), self.tasks,
                                    {'K': K, 'N': N, 'W': W, 'lamform': lamform}))
+        for lim in ((2,) if q else (2, 3)):
+            cfgs.append(Config('round_flow_lim%d' % lim, self.round_flow, {'K': 2, 'P': 4, 'lim': lim}, nonlinear=True,
+                               split=3))
         return cfgs
 
     def _judge_stats(self, c, name, new, labels, data, K, n, biased, prev):
@@ -148,6 +153,41 @@ class C12(Check):
             return
         c.notes.update({'P': P, 'K': K, 'n': n, 'labels': labs, 'm': int(m)})
         self._judge_stats(c, 'stats_after_repopulation', new, labs2, data, K, n, True, mid)
+
+    def round_flow(self, c, K, P, lim):
+        Rp = self.R
+        n = 1
+        data = stubs.sym_array(c, 'x', (P, n), writeable=False)
+        biased = c.bool('biased')
+        # per-round labellings: every cluster keeps >= 2 points so that both estimators are defined
+        pats = [[0, 0, 1, 1], [0, 1, 0, 1], [1, 1, 0, 0]]
+        stubs.install_linalg()
+        ml = MainLoop(Rp, c, K, n, modes={'initial': 'summary', 'statistics': 'real', 'optimise': 'real'},
+                      label_hook=lambda r, T: list(pats[(r + 1) % 3]))
+        ml.s_initial = lambda k, d: list(pats[0])
+        with ml:
+            ok, res = guarded(c, 'every_round_fits_current_labels', Rp.front_end.ticc_labels, data, window_size=1,
+                              num_clusters=K, iteration_limit=lim, min_cluster_size=1, sparsity_weight=0.1,
+                              label_switching_cost=1.0, biased_covariance=biased)
+        if not ok:
+            return
+        b = bool(biased)
+        stats = [t for t in ml.trace if t[1] == 'statistics']
+        f = [len(stats) == lim, len(ml.admm_calls) == lim * K]
+        if all(f):
+            for r, t in enumerate(stats):
+                labs = [int(x) for x in t[2].point_labels]
+                f.append(labs == pats[r % 3] if r > 0 else labs == pats[0])
+                out = t[3]
+                for k in range(K):
+                    a = ml.admm_calls[r * K + k][0]
+                    f.append(a[0] is out.clusters[k].empirical_covariance)
+                    members = [i for i, l in enumerate(labs) if l == k]
+                    mean, cov = sample_stats(data, members, n, b)
+                    f.append(R(np.asarray(out.clusters[k].stacked_data_mean)[0]) == mean[0])
+                    f.append(R(np.asarray(out.clusters[k].empirical_covariance).item()) == cov[0][0])
+        c.notes.update({'kind': 'round_flow', 'K': K, 'P': P, 'limit': lim, 'biased': b})
+        c.prove('every_round_fits_current_labels', conj(f))
 
     def tasks(self, c, K, N, W, lamform):
         Rp = self.R
